@@ -418,6 +418,13 @@ class BuiltinsMixin(object):
                                           {'a': a.v, 'b': b.v})))]
             except Exception:
                 pass
+        if isinstance(a, App) and a.op == 'boolsum' and \
+                isinstance(b, Const) and isinstance(b.v, int):
+            anyv = App('or', *a.args) if len(a.args) > 1 else a.args[0]
+            if (op, b.v) in (('>', 0), ('>=', 1), ('!=', 0)):
+                return [(path, anyv)]
+            if (op, b.v) in (('==', 0), ('<', 1), ('<=', 0)):
+                return [(path, self._not(anyv, path))]
         return [(path, App('cmp', Const(op), a, b))]
 
     def _not(self, v, path):
@@ -457,6 +464,10 @@ class BuiltinsMixin(object):
         return None
 
     def contains(self, container, item, path, node):
+        if hasattr(self.hooks, 'contains'):
+            r = self.hooks.contains(self, container, item, path, node)
+            if r is not None:
+                return r
         if isinstance(container, Obj) and \
                 path.heap[container.oid].kind in ('dict', 'set'):
             fk = self.fork_on_key(container, item, path)
@@ -1251,6 +1262,13 @@ class BuiltinsMixin(object):
         return [(path, App('max', *[self.snapshot(a, path) for a in args]))]
 
     def bi_sum(self, args, kw, path, node):
+        items = self.concrete_iter(args[0], path) if args else None
+        if items is not None and items and all(
+                (isinstance(x, App) and x.op in ('in', 'cmp', 'not', 'and',
+                                                 'or', 'isinstance', 'feq'))
+                or (isinstance(x, Const) and isinstance(x.v, bool))
+                for x in items):
+            return [(path, App('boolsum', *items))]
         return [(path, App('sum', *[self.snapshot(a, path) for a in args]))]
 
     def bi_any(self, args, kw, path, node):
